@@ -100,6 +100,13 @@ PROPS["C01"] = dict(
 EFU = dict(SEL64)
 EFU.update({"advance_by": 66})
 
+
+def efk(k):
+    d = dict(SEL64)
+    d["advance_by"] = k
+    return d
+
+
 PRED4 = dict(EFU)
 PRED4.update({r"EliasFano.*11predecessor": 4})
 PRED8 = dict(EFU)
@@ -130,20 +137,20 @@ PROPS["C03"] = dict(
         H("c03_iter_n4_last1000", timeout=600, unwindset=EFU, bounds="n=4 iteration"),
         H("c03_iter_n6_last1m", timeout=900, unwindset=EFU, tier="thorough", bounds="n=6 iteration"),
         H("c03_iter_n5_last4", timeout=600, unwindset=EFU, tier="thorough", bounds="n=5 dense iteration"),
-        H("c03_cursor_current_n4_last1000", timeout=1200, unwindset=EFU, tier="quick", bounds="one-step induction: current_n4_last1000"),
-        H("c03_cursor_adv1_n4_last1000", timeout=1200, unwindset=EFU, tier="quick", bounds="one-step induction: adv1_n4_last1000"),
-        H("c03_cursor_advby_n4_last1000", timeout=1200, unwindset=EFU, tier="quick", bounds="one-step induction: advby_n4_last1000"),
-        H("c03_cursor_seek_n4_last1000", timeout=1200, unwindset=EFU, tier="quick", bounds="one-step induction: seek_n4_last1000"),
-        H("c03_cursor_adv1_n4_lastmax", timeout=1200, unwindset=EFU, tier="thorough", bounds="one-step induction: adv1_n4_lastmax"),
-        H("c03_cursor_advby_n4_lastmax", timeout=1200, unwindset=EFU, tier="quick", bounds="one-step induction: advby_n4_lastmax"),
-        H("c03_cursor_adv1_n6_last5", timeout=1200, unwindset=EFU, tier="thorough", bounds="one-step induction: adv1_n6_last5"),
-        H("c03_cursor_advby_n6_last5", timeout=1200, unwindset=EFU, tier="thorough", bounds="one-step induction: advby_n6_last5"),
-        H("c03_cursor_seek_n6_last5", timeout=1200, unwindset=EFU, tier="thorough", bounds="one-step induction: seek_n6_last5"),
-        H("c03_cursor_adv1_n8_last1000", timeout=1200, unwindset=EFU, tier="thorough", bounds="one-step induction: adv1_n8_last1000"),
-        H("c03_cursor_advby_n8_last1000", timeout=1200, unwindset=EFU, tier="thorough", bounds="one-step induction: advby_n8_last1000"),
-        H("c03_cursor_adv1_n6_last300", timeout=1200, unwindset=EFU, tier="thorough", bounds="one-step induction: adv1_n6_last300"),
-        H("c03_cursor_advby_n6_last300", timeout=1200, unwindset=EFU, tier="quick", bounds="one-step induction: advby_n6_last300"),
-        H("c03_cursor_exhausted_n4_last1000", timeout=1200, unwindset=EFU, bounds="any op after exhaustion"),
+        H("c03_cursor_current_n4_last1000", timeout=1200, unwindset=efk(8), tier="quick", bounds="one-step induction: current_n4_last1000"),
+        H("c03_cursor_adv1_n4_last1000", timeout=1200, unwindset=efk(8), tier="quick", bounds="one-step induction: adv1_n4_last1000"),
+        H("c03_cursor_advby_n4_last1000", timeout=1200, unwindset=efk(8), tier="quick", bounds="one-step induction: advby_n4_last1000"),
+        H("c03_cursor_seek_n4_last1000", timeout=1200, unwindset=efk(8), tier="quick", bounds="one-step induction: seek_n4_last1000"),
+        H("c03_cursor_adv1_n4_lastmax", timeout=1200, unwindset=efk(8), tier="thorough", bounds="one-step induction: adv1_n4_lastmax"),
+        H("c03_cursor_advby_n4_lastmax", timeout=1200, unwindset=efk(8), tier="quick", bounds="one-step induction: advby_n4_lastmax"),
+        H("c03_cursor_adv1_n6_last5", timeout=1200, unwindset=efk(10), tier="thorough", bounds="one-step induction: adv1_n6_last5"),
+        H("c03_cursor_advby_n6_last5", timeout=1200, unwindset=efk(10), tier="thorough", bounds="one-step induction: advby_n6_last5"),
+        H("c03_cursor_seek_n6_last5", timeout=1200, unwindset=efk(10), tier="thorough", bounds="one-step induction: seek_n6_last5"),
+        H("c03_cursor_adv1_n8_last1000", timeout=1200, unwindset=efk(12), tier="thorough", bounds="one-step induction: adv1_n8_last1000"),
+        H("c03_cursor_advby_n8_last1000", timeout=1200, unwindset=efk(12), tier="thorough", bounds="one-step induction: advby_n8_last1000"),
+        H("c03_cursor_adv1_n6_last300", timeout=1200, unwindset=efk(10), tier="thorough", bounds="one-step induction: adv1_n6_last300"),
+        H("c03_cursor_advby_n6_last300", timeout=1200, unwindset=efk(10), tier="quick", bounds="one-step induction: advby_n6_last300"),
+        H("c03_cursor_exhausted_n4_last1000", timeout=1200, unwindset=efk(8), bounds="any op after exhaustion"),
         H("c03_cursor0_and_empty", timeout=600, unwindset=EFU, bounds="cursor()==cursor_from(0); empty sequence"),
         H("c03_witness_must_fail", kind="witness", tier="thorough", timeout=600, unwindset=EFU),
     ],
@@ -230,8 +237,15 @@ PROPS["C31"] = dict(
     ],
 )
 
-U13 = {r"line_col|violated_rule|valid_up_to": 70, r"line_and_column": 70, r"validate_utf8_scalar": 70, r"skip_ascii": 70,
-       r"broadword.*accepts": 70, r"c13.*window|c13_": 70, r"validate_utf8_avx2": 6}
+def u13(n, main=None):
+    """Loops whose stride is symbolic cannot be folded by CBMC, so each gets the tightest bound that still
+    passes its unwinding assertion: `main` bounds the validators' main loops (iterations over the concrete
+    filler are folded by symex; only the symbolic window costs), everything else is bounded by the length."""
+    b = n + 2
+    m = main if main is not None else b
+    return {r"line_col|violated_rule|valid_up_to|check_result": b, r"line_and_column": b, r"validate_utf8_scalar": m, r"skip_ascii": n // 8 + 10,
+            r"broadword.*accepts": m, r"load_block": 6, r"c13_": max(b, 24), r"validate_utf8_avx2": n // 32 + 2}
+
 
 PROPS["C13"] = dict(
     module="c13",
@@ -239,31 +253,36 @@ PROPS["C13"] = dict(
             "with a fully symbolic window of 4-8 bytes placed at the 8-byte word and 32-byte block boundaries; AVX2 validator: same windows at "
             "offsets 0, 27-30 and 60 around the 32/64-byte chunk boundaries; encode/decode: every u32 and every <=4-byte string"),
     outside="more than 8 symbolic bytes at once; windows at offsets not listed; aarch64",
-    assumptions=["_mm256_max_epu8 and _mm256_testz_si256 replaced by models.rs; is_x86_feature_detected!(avx2) fixed or solver-chosen per harness"],
+    assumptions=["inside the validator harnesses the private error constructor err_at is replaced by a marker stub; the real one is decided by c13_err_at_*", "_mm256_max_epu8 and _mm256_testz_si256 replaced by models.rs; is_x86_feature_detected!(avx2) fixed or solver-chosen per harness"],
     harnesses=[
-        H("c13_scalar_len0to3", timeout=600, unwindset=U13, bounds="all strings of 0..=3 bytes"),
-        H("c13_scalar_len4", timeout=600, unwindset=U13, bounds="all 4-byte strings"),
-        H("c13_scalar_len5", timeout=900, unwindset=U13, bounds="all 5-byte strings"),
-        H("c13_scalar_len6", timeout=900, unwindset=U13, bounds="all 6-byte strings"),
-        H("c13_scalar_len7", timeout=1800, unwindset=U13, tier="thorough", bounds="all 7-byte strings"),
-        H("c13_scalar_len8", timeout=1800, unwindset=U13, tier="thorough", bounds="all 8-byte strings"),
+        H("c13_scalar_len0to3", timeout=600, unwindset=u13(3), bounds="all strings of 0..=3 bytes"),
+        H("c13_scalar_len4", timeout=600, unwindset=u13(4), bounds="all 4-byte strings"),
+        H("c13_scalar_len5", timeout=900, unwindset=u13(5), bounds="all 5-byte strings"),
+        H("c13_scalar_len6", timeout=900, unwindset=u13(6), bounds="all 6-byte strings"),
+        H("c13_scalar_len7", timeout=1800, unwindset=u13(7), tier="thorough", bounds="all 7-byte strings"),
+        H("c13_scalar_len8", timeout=1800, unwindset=u13(8), tier="thorough", bounds="all 8-byte strings"),
         H("c13_continuation_offset_is_valid_prefix", kind="finding", finding="C13-continuation-offset",
-          finding_match=r"e\.offset == valid_up_to", timeout=600, unwindset=U13, bounds="all 4-byte strings"),
-        H("c13_scalar_win17_at9", timeout=900, unwindset=U13, bounds="17 bytes, 6-byte window at 9"),
-        H("c13_scalar_win20_at12", timeout=900, unwindset=U13, tier="thorough", bounds="20 bytes, 6-byte window at 12"),
-        H("c13_broadword_win41_at30", timeout=900, unwindset=U13, bounds="41 bytes, 6-byte window at 30 (32-byte block skip)"),
-        H("c13_broadword_win36_at0", timeout=900, unwindset=U13, tier="thorough", bounds="36 bytes, 5-byte window at 0"),
-        H("c13_avx2_win33_at27", timeout=1800, unwindset=U13, bounds="33 bytes, 6-byte window at 27 (crosses the chunk boundary)"),
-        H("c13_avx2_win36_at28", timeout=2700, unwindset=U13, tier="thorough", bounds="36 bytes, 8-byte window at 28"),
-        H("c13_avx2_win36_at30", timeout=1800, unwindset=U13, bounds="36 bytes, 6-byte window at 30"),
-        H("c13_avx2_win34_at0", timeout=1800, unwindset=U13, tier="thorough", bounds="34 bytes, 6-byte window at 0"),
-        H("c13_avx2_win65_at60", timeout=2700, unwindset=U13, tier="thorough", bounds="65 bytes, 5-byte window at 60 (second boundary)"),
-        H("c13_avx2_win40_at29_multi", timeout=1800, unwindset=U13, tier="thorough", bounds="40 bytes multi-byte filler, 4-byte window at 29"),
-        H("c13_avx2_win8_at2", timeout=900, unwindset=U13, bounds="8 bytes (tail-only path), 6-byte window"),
-        H("c13_dispatch_win34_at29", timeout=1800, unwindset=U13, tier="thorough", bounds="validate_utf8 dispatcher, avx2 solver-chosen", replay="trace"),
+          finding_match=r"e\.offset == valid_up_to", timeout=600, unwindset=u13(4), bounds="all 4-byte strings"),
+        H("c13_scalar_win17_at9", timeout=900, unwindset=u13(17, 14), bounds="17 bytes, 6-byte window at 9"),
+        H("c13_scalar_win22_at10_multi", timeout=900, unwindset=u13(22, 36), tier="thorough", bounds="22 bytes multi-byte filler, 4-byte window at 10"),
+        H("c13_broadword_win12_at4", timeout=900, unwindset=u13(12, 14), bounds="12 bytes, 6-byte window at 4 (8-byte word skip)"),
+        H("c13_scalar_win20_at12", timeout=900, unwindset=u13(20, 14), tier="thorough", bounds="20 bytes, 6-byte window at 12"),
+        H("c13_broadword_win41_at30", timeout=900, unwindset=u13(41, 14), bounds="41 bytes, 6-byte window at 30 (32-byte block skip)"),
+        H("c13_broadword_win36_at0", timeout=900, unwindset=u13(36, 14), tier="thorough", bounds="36 bytes, 5-byte window at 0"),
+        H("c13_avx2_win33_at27", timeout=1800, unwindset=u13(33, 14), bounds="33 bytes, 6-byte window at 27 (crosses the chunk boundary)"),
+        H("c13_avx2_win36_at28", timeout=2700, unwindset=u13(36, 16), tier="thorough", bounds="36 bytes, 8-byte window at 28"),
+        H("c13_avx2_win36_at30", timeout=1800, unwindset=u13(36, 14), bounds="36 bytes, 6-byte window at 30"),
+        H("c13_avx2_win34_at0", timeout=1800, unwindset=u13(34, 14), tier="thorough", bounds="34 bytes, 6-byte window at 0"),
+        H("c13_avx2_win65_at60", timeout=2700, unwindset=u13(65, 14), tier="thorough", bounds="65 bytes, 5-byte window at 60 (second boundary)"),
+        H("c13_avx2_win40_at29_multi", timeout=1800, unwindset=u13(40, 36), tier="thorough", bounds="40 bytes multi-byte filler, 4-byte window at 29"),
+        H("c13_avx2_win8_at2", timeout=900, unwindset=u13(8, 14), bounds="8 bytes (tail-only path), 6-byte window"),
+        H("c13_dispatch_win34_at29", timeout=1800, unwindset=u13(34, 14), tier="thorough", bounds="validate_utf8 dispatcher, avx2 solver-chosen", replay="trace"),
+        H("c13_err_at_len7", timeout=600, unwindset=u13(7), bounds="line/column of every offset, all 7-byte buffers"),
+        H("c13_err_at_len17", timeout=900, unwindset=u13(17), bounds="all 17-byte buffers (two 8-byte words + tail)"),
+        H("c13_err_at_len26", timeout=1800, unwindset=u13(26), tier="thorough", bounds="all 26-byte buffers"),
         H("c13_codepoint_roundtrip", timeout=600, bounds="every u32"),
         H("c13_decode_matches_table", timeout=600, bounds="every string of 0..=4 bytes"),
-        H("c13_witness_must_fail", kind="witness", tier="thorough", timeout=600, unwindset=U13),
+        H("c13_witness_must_fail", kind="witness", tier="thorough", timeout=600, unwindset=u13(4)),
     ],
 )
 
